@@ -138,6 +138,8 @@ func readerValue(d ColDesc, r column.Reader) any {
 				return -1
 			}
 			return int(x.V)
+		case "uint", "uint16", "uint32", "uint64":
+			return int(r.Uint())
 		default:
 			return r.Int()
 		}
